@@ -222,6 +222,17 @@ GENERATORS = {
     "Features": gen_features,
 }
 
+# per-property translators live in harness/translate_<X>.py and expose GENERATORS = {name: fn};
+# they are merged here so that `GEN = ["Name"]` in a property module just works
+import glob as _glob
+import importlib.util as _ilu
+for _p in sorted(_glob.glob(os.path.join(HERE, "translate_*.py"))):
+    _spec = _ilu.spec_from_file_location(os.path.basename(_p)[:-3], _p)
+    _m = _ilu.module_from_spec(_spec)
+    sys.modules[_spec.name] = _m
+    _spec.loader.exec_module(_m)
+    GENERATORS.update(getattr(_m, "GENERATORS", {}))
+
 
 def write_if_changed(path, text):
     try:
